@@ -40,7 +40,7 @@ Step(e) ==
          /\ IF e.scope = "user" THEN maybeU' = maybeU \cup {e.w} /\ UNCHANGED maybeF
             ELSE maybeF' = [maybeF EXCEPT ![e.doc] = @ \cup {e.w}] /\ UNCHANGED maybeU
          /\ crashedAt' = e.at /\ UNCHANGED <<user, file, baseline>>
-    [] e.ev = "Restart" -> Unch
+    [] e.ev \in {"Restart", "Deep"} -> Unch
     [] e.ev = "Reloaded" ->
          /\ Unch
          /\ LET want == IF e.scope = "user" THEN user ELSE file[e.doc]
